@@ -72,6 +72,13 @@ class PlanConfig:
         self.allow_async = allow_async
         self.focus = focus
         self.slowc_num = (0, 2, 4)[tape.weighted((2, 2, 1), "p_slowc")] if allow_async else 0
+        if focus == "abortstream":
+            # lists mostly come from asynchronous sources with slow aclose(); streams fail often
+            self.async_num = 5
+            self.iter_num = 7
+            self.slow_close_num = 5
+            self.src_fault_num = 3
+            self.slowc_num = 4
         if focus == "background":
             # many synchronous failures next to asynchronous siblings: chains of work that the
             # executor settles in the background (what the async_work_finished hook waits for)
